@@ -260,7 +260,11 @@ def history_steps(path, df, opts, res, counters, scheme):
     if scheme != "simple" and len(pf.row_groups) >= 2 and len(res["failures"]) == n0:
         k = pf.row_groups[0].num_rows
         try:
-            pf.remove_row_groups(pf.row_groups[0])
+            # (half of the time with renumbering of the part files: every chunk of _metadata must follow its file to the new name)
+            renum = bool(len(df) % 2)
+            pf.remove_row_groups(pf.row_groups[0], sort_pnames=renum)
+            if renum:
+                counters["histories_with_renumbered_parts"] = counters.get("histories_with_renumbered_parts", 0) + 1
         except Exception:
             counters["history_remove_refused"] = counters.get("history_remove_refused", 0) + 1
         else:
@@ -308,4 +312,4 @@ def run_case(case):
 
 def required(tier):
     return {"validated_pages": 3000, "validated_chunks": 1500, "validated_dict_pages": 100, "validated_v2_pages": 500, "validated_footers": 800,
-            "columns_compared": 1000, "histories_validated": 150, "histories_with_removal_validated": 10}
+            "columns_compared": 1000, "histories_validated": 150, "histories_with_removal_validated": 10, "histories_with_renumbered_parts": 5}
